@@ -25,6 +25,8 @@ pub struct XNode {
     pub adv_descendant_count: usize,
     pub parse_state: u16,
     pub id: usize,
+    /// bytes examined by the lexer beyond the node's end (hook H2)
+    pub lookahead: u32,
 }
 
 #[derive(Clone, Debug)]
@@ -63,6 +65,7 @@ impl XTree {
                 adv_descendant_count: n.descendant_count(),
                 parse_state: n.parse_state(),
                 id: n.id(),
+                lookahead: unsafe { ts_verif_node_lookahead_bytes(n.into_raw()) },
             });
             if let Some(p) = parent { nodes[p].children.push(idx); }
             if cursor.goto_first_child() { stack.push(idx); continue; }
@@ -147,6 +150,7 @@ extern "C" {
     fn ts_verif_free(p: *mut std::ffi::c_char);
     fn ts_verif_check_tree(tree: *const std::ffi::c_void, err: *mut std::ffi::c_char, errlen: usize) -> i32;
     fn ts_verif_root_ref_count(tree: *const std::ffi::c_void) -> u32;
+    fn ts_verif_node_lookahead_bytes(node: tree_sitter::ffi::TSNode) -> u32;
 }
 
 pub fn raw_tree(tree: &Tree) -> *const std::ffi::c_void {
